@@ -5,7 +5,7 @@ from jsongen import *
 META = {
     "technique": "Lean 4 model of json::operator[] (const and non-const), getPathValue/get<T>, has, remove, set, operator+=/mergeWithObject on sorted association lists; the nested-dictionary laws (read-after-write, frame, intermediates created, reads create nothing, remove, recursive right-biased merge, size) proved for all trees, paths and histories; differential run of histories against the real occa::json with a std::map dictionary reference as model-independent oracle",
     "category": "proof",
-    "level_text": "Proof for all json trees, key paths and operation histories of the nested-dictionary laws of the model (C25_read_after_write, C25_write_frame, C25_write_creates_intermediates, C25_read_missing_undefined, C25_has_iff, C25_remove_spec, C25_merge_lookup, C25_merge_size, C25_history_wf, ...), tied to the code by a seeded differential run of operation histories on the real occa::json against the model and against an independent std::map dictionary.",
+    "level_text": "Proof for all json trees, key paths and operation histories of the nested-dictionary laws of the model (C25_read_after_write, C25_write_frame, C25_write_creates_intermediates, C25_write_through_leaf_fails, C25_read_missing_undefined, C25_has_of_defined, C25_touch_has/_read/_frame/_creates_intermediates, C25_remove_spec, C25_remove_frame, C25_set_spec, C25_merge_spec, C25_mergeVal_spec, C25_merge_keys, C25_size_insert, C25_history_wf, C25_path_string), tied to the code by a seeded differential run of operation histories on the real occa::json against the model and against an independent std::map dictionary.",
     "level_note": "Trusted: Lean kernel; the hand-written model lean/OccaModel/JsonPath.lean (validated by the correspondence run, not proved equal to the C++); harness/h_jsonpath.cpp and its dictionary reference. The model is of the repaired code (fixes/FJ1 stale primitive source, FJ2 set() on a non-object, FJ3 merge key lookup, FJ6 getPathValue escape). The non-const operator[] is modelled as the write-path accessor it is: it leaves an undefined placeholder for a missing path (reported, not hidden); the property's reads are the const accessors.",
     "design_ref": "DESIGN.md section 4, C25",
 }
